@@ -321,6 +321,37 @@ def run_shard(args):
             if len(out["samples"]) < 2 and F == frozenset(CATS):
                 out["samples"].append({"F": sorted(F), "before": src[:1000], "after": new[:1000]})
         ns.close()
+    # ---- `in` snapshots whose previous argument is not a list display (set, tuple, variable): outside the documented
+    # usage - the pinned tree ends such a session with an internal error, which is tolerated and counted here (C18's
+    # scope excludes it) - but if the tool handles them, the categories must mean what they mean for lists
+    if args.shard < 4:
+        rng = random.Random(f"{args.seed}/{PROP}/non-list-in/{args.shard}")
+        a, b, c2 = rng.sample(range(10, 99), 3)
+        old = [f"{{{a}, {b}}}", f"({a}, {b})", f"frozenset([{a}, {b}])", f"[{a}, {b}][:]"][args.shard]
+        site = {"id": 0, "op": "in", "old": old, "obs": [str(b), str(c2)], "place": "loop", "sig": "non-list-in"}
+        src, order = program.build([site], style="rec", tests=1)
+        m = models.SiteModel("in", [a, b], [b, c2])
+        for F in [frozenset({"fix"}), frozenset({"trim"}), frozenset({"fix", "trim"}), frozenset()]:
+            res = inproc.run({"test_a.py": src}, F)
+            C["runs"] += 1
+            if res.exec_exc or res.crashed():
+                C["non_list_in_sessions_ending_in_internal_error(tolerated)"] = C.get("non_list_in_sessions_ending_in_internal_error(tolerated)", 0) + 1
+                continue
+            C["non_list_in_sessions_checked"] = C.get("non_list_in_sessions_checked", 0) + 1
+            out["evaluations"] += 1
+            got = set().union(*[set(i.get("flags", [])) for i in res.sites]) - {"update"}
+            new = res.files_after["test_a.py"].decode()
+            ns = inproc.Namespace()
+            try:
+                val = eval_args(new, ns)[0]
+                val = list(val) if isinstance(val, (set, frozenset, tuple, list)) else val
+            except Exception as e:
+                val = repr(e)
+            finally:
+                ns.close()
+            want = m.after(F)
+            if got != m.pending() or not models.same_value("in", want, val):
+                out["violations"].append({"kind": "non-list-in-snapshot-handled-against-the-category-rules", "detail": {"old": old, "obs": site["obs"], "F": sorted(F), "reported": sorted(got), "model": sorted(m.pending()), "expected_members": repr(want), "got": repr(val)}, "witness": {"files": {"test_a.py": src}, "flags": sorted(F)}, "finding": None})
     out["signatures"] = sorted(out["signatures"])
     return out
 
